@@ -35,10 +35,15 @@ import (
 // "abandon" (the retransmit-handshake timer callback with the attempts counter at its maximum: the attempt
 // is given up), "retransmit" (the same callback with the counter at 0: SendHandshakeInitiation(true); the
 // model sees Initiate false).
+// "respw" (a response with an event INSIDE its processing window, see window.go: A=k-th newest initiation, B=ref index,
+// In = the in-window event: "recv"/"recvka" (C=session id) or "init" (C=force), Win = schedule point "log" or "lock").
 type Ev struct {
-	K string `json:"k"`
-	A uint64 `json:"a,omitempty"`
-	B uint64 `json:"b,omitempty"`
+	K   string `json:"k"`
+	A   uint64 `json:"a,omitempty"`
+	B   uint64 `json:"b,omitempty"`
+	C   uint64 `json:"c,omitempty"`
+	In  string `json:"in,omitempty"`
+	Win string `json:"win,omitempty"`
 }
 
 type Slot struct {
@@ -94,16 +99,18 @@ type runner struct {
 	idle     bool              // the scenario contains real idle time: judged by margins, not by wall time
 	margin   bool              // a whole-second margin was not kept
 	limit    time.Duration     // after the idle period the reference key must stay younger than this
+	park     *parker           // the device's Logger: schedule point inside the response-processing window
 }
 
 func newRunner() (*runner, error) {
 	p := cosim.NewPeer("A", "192.0.2.7:5555", "10.0.0.2/32")
-	w, err := cosim.NewWorld(cosim.Config{Up: true}, true, p)
+	park := newParker()
+	w, err := cosim.NewWorldLogger(cosim.Config{Up: true}, true, park.logger(), p)
 	if err != nil {
 		return nil, err
 	}
 	w.Timeout = time.Second
-	return &runner{w: w, p: p, pk: cosim.NoisePK(p.Pub), ord: map[uint32]uint64{}, tsBase: time.Now(), start: time.Now(), lastMsg: map[uint64][]byte{}}, nil
+	return &runner{park: park, w: w, p: p, pk: cosim.NoisePK(p.Pub), ord: map[uint32]uint64{}, tsBase: time.Now(), start: time.Now(), lastMsg: map[uint64][]byte{}}, nil
 }
 
 func (r *runner) close() { r.w.Close() }
@@ -128,7 +135,7 @@ func (r *runner) do(e Ev) Obs {
 	var out cosim.Out
 	if r.idle {
 		switch e.K {
-		case "init", "resp", "cr", "idle", "restart", "retransmit":
+		case "init", "resp", "respw", "cr", "idle", "restart", "retransmit":
 			r.margin = true // new keys after real idle time: whole-second ages no longer controlled
 		case "tick":
 			r.limit += time.Duration(e.A) * time.Second
@@ -155,6 +162,8 @@ func (r *runner) do(e Ev) Obs {
 		} else {
 			out = r.w.Take()
 		}
+	case "respw":
+		return r.doWindow(e)
 	case "cr":
 		r.w.Dev.VerifC07ShiftInitiationConsumption(r.pk, time.Second)
 		r.ncr++
@@ -406,6 +415,7 @@ const (
 	aRecvKaCur
 	aRecvKaNext
 	aRecvKaRetired
+	aWindow
 )
 
 func (r *runner) sidOfIndex(idx uint32) (uint64, bool) {
@@ -499,6 +509,52 @@ func (r *runner) resolve(kind int, arg uint64, rnd *rand.Rand) []Ev {
 			return nil
 		}
 		return []Ev{{K: "recvka", A: evs[0].A}}
+	case aWindow:
+		// an event inside the response-processing window of a re-key (or first handshake), then the usual judgement:
+		// the new session's key is aged past 165 s and used
+		var evs []Ev
+		nsess := uint64(len(r.sessions))
+		v := arg
+		if rnd != nil {
+			v = uint64(rnd.Intn(1 << 16))
+		}
+		win := []string{"lock", "log"}[v%2]
+		fresh := win == "lock" || st.HandshakeState != 1 || (v/2)%3 > 0
+		if st.Current.Present && (v/6)%4 > 0 {
+			if age := uint64(st.Current.AgeNanos / 1e9); age < 166 {
+				evs = append(evs, Ev{K: "tick", A: 166 - age + (v/24)%10})
+			}
+		}
+		if fresh {
+			evs = append(evs, Ev{K: "init", A: 1}) // the window is then inside the 5 s spacing
+		}
+		w := Ev{K: "respw", A: 0, B: refIdx, Win: win}
+		var in []Ev
+		switch (v / 240) % 8 {
+		case 0, 1, 2, 3:
+			in = slot(st.Current)
+		case 4:
+			in = slot(st.Previous)
+		case 5:
+			in = r.resolve(aRecvUnaccepted, 0, rnd)
+		}
+		if len(in) > 0 {
+			w.In, w.C = "recv", in[0].A
+			if (v/2000)%4 == 0 {
+				w.In = "recvka"
+			}
+		} else if win == "log" {
+			w.In, w.C = "init", (v/2000)%2
+		} else if cur := slot(st.Current); len(cur) > 0 {
+			w.In, w.C = "recv", cur[0].A
+		} else {
+			w.In, w.C, w.Win = "init", (v/2000)%2, "log"
+		}
+		evs = append(evs, w)
+		if rnd == nil || rnd.Intn(4) > 0 {
+			evs = append(evs, Ev{K: "tick", A: 166}, Ev{K: []string{"recv", "recv", "recvka"}[(v/8000)%3], A: nsess})
+		}
+		return evs
 	case aRestart:
 		return []Ev{{K: "restart"}}
 	case aKeepalive:
@@ -648,7 +704,7 @@ var randomMix = []weighted{
 	{aCI, 14}, {aCR, 14}, {aRecvPrev, 7}, {aRecvCur, 9}, {aRecvNext, 8}, {aRecvRetired, 6}, {aRecvUnaccepted, 3},
 	{aSend, 14}, {aTick, 6}, {aTickEdge, 12}, {aInitiate, 4}, {aRespondStale, 2}, {aRespondNow, 3},
 	{aForgeNext, 7}, {aForgeCur, 3}, {aForgePrev, 2}, {aForgeRetired, 2}, {aReplay, 3}, {aRestart, 5}, {aKeepalive, 9}, {aAbandon, 6},
-	{aRecvKaNext, 8}, {aRecvKaCur, 5}, {aRecvKaPrev, 3}, {aRecvKaRetired, 3},
+	{aRecvKaNext, 8}, {aRecvKaCur, 5}, {aRecvKaPrev, 3}, {aRecvKaRetired, 3}, {aWindow, 9},
 }
 
 var tickChoices = []uint64{1, 4, 6, 45, 61, 119, 121, 164, 166, 179, 181}
@@ -747,7 +803,7 @@ var alphabet7 = []absEv{{aCI, 0}, {aCR, 0}, {aRecvPrev, 0}, {aRecvCur, 0}, {aRec
 
 // the extended alphabet: also short ticks (5 s spacing), timer-style initiation, stale response
 var alphabetFull = append(append([]absEv{}, alphabet7...), absEv{aTick, 4}, absEv{aTick, 45}, absEv{aInitiate, 0}, absEv{aRespondStale, 0}, absEv{aRespondNow, 0},
-	absEv{aForgeNext, 0}, absEv{aForgeNext, 2}, absEv{aForgeCur, 3}, absEv{aReplay, 0}, absEv{aAbandon, 0})
+	absEv{aForgeNext, 0}, absEv{aForgeNext, 2}, absEv{aForgeCur, 3}, absEv{aReplay, 0}, absEv{aAbandon, 0}, absEv{aWindow, 6}, absEv{aWindow, 7})
 
 // exhaustive enumerates all sequences over the alphabet to the given depth, up to the
 // abstract state reached: every (representative prefix, event) pair is run on a fresh device.
@@ -845,6 +901,9 @@ func stepInts(e Ev, o Obs) []uint64 {
 		k = 10
 	case "retransmit":
 		k, a = 0, 0 // SendHandshakeInitiation(true): for the slice the same as Initiate false
+	case "respw":
+		// a response with an event inside its processing window: Keypairs.Check.dec_pre
+		k, a, b = map[string]uint64{"recv": 12, "recvka": 13, "init": 14}[e.In], e.A%1024+1024*e.C, e.B
 	}
 	v := []uint64{k, a, b, optInt(o.Init), b2i(o.Resp), b2i(o.Tun)}
 	for _, s := range []Slot{o.Prev, o.Cur, o.Next} {
@@ -1024,6 +1083,9 @@ func main() {
 		}
 		infos = append(infos, shardInfo{name, idx, end - idx})
 		idx = end
+	}
+	for k, v := range winStat {
+		info[k] = v
 	}
 	meta := map[string]any{"seed": *seed, "cases": cases, "shards": infos, "discarded": discarded, "info": info}
 	data, _ := json.Marshal(meta)
